@@ -12,13 +12,16 @@ PID = "C12"
 THEOREM_MODULES = ["GuppyVerif.Props.C12"]
 DRIVER = "C12"
 RULE = (
-    "cases (s, t, sigma0) built on the real guppylang classes (ExistentialTypeVar/ConstVar, BoundTypeVar/ConstVar, "
+    "unify cases (s, t, sigma0) built on the real guppylang classes (ExistentialTypeVar/ConstVar, BoundTypeVar/ConstVar, "
     "NumericType, NoneType, TupleType, FunctionType with flags/params/comptime args, OpaqueType bool/list/array/Option/"
-    "linear Q/affine A, StructType generic and linear, ConstValue): two partial generalisations of a common term "
+    "linear Q/affine A/relevant R, StructType generic and linear, ConstValue): two partial generalisations of a common term "
     "(near-unifiable), mutated near-misses (leaf, flag, arity, arg kind, occurs), variable cycles through the prior, "
-    "independent random pairs; sigma0 = random acyclic prior or the result of a previous real unify. Also single-pass / "
-    "exhaustive substitution and linearity requests. Non-trivial = a unify case where both sides contain variables or "
-    "sigma0 is non-empty; distinct by canonical request line"
+    "ownership-flag cases on linear inputs, independent random pairs; sigma0 = random acyclic prior or the result of a "
+    "previous real unify. Plus single-pass / exhaustive substitution and linearity requests, and check_type_against "
+    "requests (generic function type over bound variables against an expected function type with inference variables, derived "
+    "from a common instance), and whole generic-call programs from the corpus. Non-trivial = a unify case where both sides "
+    "contain variables or sigma0 is non-empty, or a check_type_against case whose expected type has variables; distinct by "
+    "canonical request line"
 )
 ASSUMPTIONS = [
     "inputs are well-sorted as Python's static types demand (TypeArg holds a type, ConstArg a const, a substitution maps "
@@ -27,36 +30,47 @@ ASSUMPTIONS = [
     "existential variable ids are globally unique (ExistentialVar._fresh_id) so that the id determines display name, sort and "
     "copy/drop flags; likewise a bound-variable index determines its attributes within one binder context; the model identifies "
     "variables by id / index only, as `unify` does",
-    "the Lean model Model/Unify.lean is hand-written; agreement with ty.py/subst.py is established by the same-input "
-    "correspondence run here (exact equality of the returned dict, in insertion order, with unsubstituted images)",
+    "the Lean model Model/Unify.lean is hand-written; agreement with ty.py/subst.py/expr_checker.check_type_against is established "
+    "by the same-input correspondence run here (exact equality of the returned dict, in insertion order, with unsubstituted images)",
     "struct types are instantiated according to their definition's parameters (as check_instantiate enforces): `.linear` of an "
     "ill-kinded StructType raises inside Instantiator; opaque types are generated with wrong arity / argument kinds as near-misses",
+    "rank-1 discipline: variables are not solved to generic function types inside opaque/struct arguments (the constructors raise)",
     "`linear` of struct types: copyable(struct) = c_defn and all type arguments copyable, where c_defn is the struct's "
     "intrinsic copyability under all-copyable arguments (monotonicity of field copyability); checked against `.linear` in the tie",
+    "check_type_against is called with a dummy AST node and ctx=None (neither is used on the parametrised path); "
+    "ExistentialVar._fresh_id is reset before each call so that the fresh variables are known",
 ]
 UNMODELLED = [
-    "check_type_against / check_call / type_check_args (the generic-call corollary: only its unify core is modelled)",
+    "check_call / synthesize_call / type_check_args (only check_type_against's parametrised path and two corpus programs), "
+    "check_inst (parameter bounds), try_coerce_to, Instantiator on nested generic function types (raises)",
     "FunctionType.unitary_flags (ignored by unify, dropped by FunctionType.transform; generator always uses NoFlags)",
     "Substituter on function types carrying explicit comptime_args: FunctionType.transform rebuilds the type without them "
     "(0.21.6; upstream 1.0.4 keeps them) — the substitution requests use default comptime args only; unify requests cover explicit ones",
-    "display names, TupleType/NoneType.preserve (excluded from dataclass equality), Instantiator",
-    "ownership-flag rule when linearity of a function input changes under the unifier (rule is evaluated on the types as written; "
-    "such cases are classified flag-ambiguous and only the model correspondence is checked for them)",
+    "display names, TupleType/NoneType.preserve (excluded from dataclass equality)",
+    "ownership-flag rule when linearity of a function input changes under the unifier: the code evaluates the rule on the types "
+    "as written; such cases are classified flag-ambiguous and only the model correspondence is checked (two witnesses are "
+    "KNOWN-FINDINGs, proved in Lean as unify_complete_linear_flags_false / unify_sound_linear_flags_false)",
 ]
 MANIFEST = {
-    "level_text": "Lean theorems about an executable model of unify/_unify_var/_occurs/_unify_args/Substituter/linear, for all "
-    "terms and all acyclic prior substitutions (no size bound): soundness w.r.t. solution semantics (the result extends the prior, "
-    "stays acyclic, every solution of it solves the prior and equates both sides up to ownership flags; enough Substituter passes "
-    "reach a fixpoint that equates both sides), termination (for every acyclic prior some fuel reaches an outcome and larger fuels "
-    "agree), success implies a unifier exists; completeness, most-generality and the iff for well-sorted inputs (partial: proved "
-    "where the ownership-flag rule cannot fire / for exact unifiers). Model tied to ty.py/subst.py on every run by same-input "
-    "correspondence on the real guppylang classes (quick 5000 unify cases, thorough 400000; exact equality of the returned dict) "
-    "with an independent Robinson unifier as property oracle (unifiable or not, result unifies, result most general).",
-    "level_note": "Trusted: Lean kernel + propext/Classical.choice/Quot.sound; my statement of solutions/acyclicity/well-sortedness; "
-    "the encoder from guppylang objects to model terms; the correspondence is sampling. Two defects fixed in /repo (cyclic result "
-    "from an occurs check that ignored the substitution; constants of different type unified); theorems are about the repaired code. "
-    "Completeness/MGU are `_partial`: the flag rule is evaluated on types as written, see notes/C12.md.",
-    "technique": "Lean 4 proof over a hand-written model + differential correspondence with ty.py/subst.py + independent unifier oracle",
+    "level_text": "Lean theorems about an executable model of unify/_unify_var/_occurs/_unify_args/Substituter/linear/"
+    "resolve_subst/check_type_against, for all terms and all acyclic prior substitutions (no size bound): soundness w.r.t. "
+    "solution semantics (the result extends the prior, stays acyclic, every solution of it solves the prior and equates both "
+    "sides up to ownership flags; |sigma| Substituter passes reach a fixpoint that equates both sides), termination (for every "
+    "acyclic prior some fuel reaches an outcome and all larger fuels agree), success implies a unifier exists; completeness, "
+    "most-generality and the iff for well-sorted inputs in three `_partial` forms: when nothing is linear, for exact unifiers "
+    "(any environment), and for the property's literal flag reading restricted to assignments that keep linearity — with "
+    "machine-checked counterexamples showing the restriction is necessary; soundness of check_type_against for generic "
+    "function values. Model tied to ty.py/subst.py/expr_checker.py on every run by same-input correspondence on the real "
+    "guppylang classes (quick 5000 unify + 1500 check_type_against cases, thorough 400000 + 40000; exact equality of returned "
+    "dicts) with an independent Robinson unifier as property oracle (unifiable or not, result unifies, result most general, "
+    "principal instantiation).",
+    "level_note": "Trusted: Lean kernel + propext/Classical.choice/Quot.sound; my statement of solutions/acyclicity/"
+    "well-sortedness/LinEq; the encoder from guppylang objects to model terms; the correspondence is sampling. Three defects fixed "
+    "in /repo (cyclic result from an occurs check that ignored the substitution; constants of different type unified; "
+    "check_type_against leaking unresolved triangular solutions, crashing apply(ident, 5)); theorems are about the repaired code. "
+    "Two known findings: the ownership-flag rule is evaluated on types as written (not complete / not sound for the literal "
+    "reading when instantiation changes linearity).",
+    "technique": "Lean 4 proof over a hand-written model + differential correspondence with ty.py/subst.py/expr_checker.py + independent unifier oracle",
     "design_ref": "DESIGN.md §5 C12",
     "ready": True,
 }
